@@ -131,9 +131,11 @@ Fixpoint trim (gs : list (list (option bytes))) : list (list (option bytes)) :=
 
 Definition idx_slot (idx : N) : option bytes := if idx =? 0 then None else Some (size2_w idx).
 
+(** the first block has the index flag and 7 field bits, every later block 8 field bits *)
 Definition body_of (idx : N) (items : list (option bytes)) : bytes :=
-  let slots := idx_slot idx :: items in
-  concat (map enc_group (trim (chunk8 (length slots) slots))).
+  let g0 := idx_slot idx :: firstn 7 items in
+  let tl := skipn 7 items in
+  concat (map enc_group (trim (g0 :: chunk8 (length tl) tl))).
 
 Section EncItems.
   Variable rec : nat -> bool -> value -> option bytes.
@@ -282,33 +284,40 @@ Section DecItems.
   Variable empt : nat -> bool.
   Variable bitf : nat -> bool.
 
+  (** one field: [set] = its bit in the current block, [i] = its index in the struct *)
+  Definition dec_item (fd : field) (i : nat) (set : bool) (cur : bytes)
+    : option (res (option value * bytes)) :=
+    if bitf i then Some (Ok (if set then Some (VStruct []) else None, cur))
+    else if empt (f_ty fd) then
+      (* field.IsTL2Omitted() || field.t.IsTrueType(): skipped, no presence bit is recorded *)
+      let o := if masked fd then None else Some (VStruct []) in
+      if set then match skip_sized cur with Ok cur' => Some (Ok (o, cur')) | _ => Some Reject end
+      else Some (Ok (o, cur))
+    else if set then
+      match rec (f_ty fd) cur with
+      | Some (Ok (v, cur')) => Some (Ok (Some v, cur'))
+      | Some _ => Some Reject
+      | None => None
+      end
+    else if masked fd then Some (Ok (None, cur))
+    else match dfl (f_ty fd) with Some d => Some (Ok (Some d, cur)) | None => Some Reject end.
+
   (** fields [g] of one block; [k] = bit number of the first one, [i] = its field index *)
   Fixpoint dec_items (g : list field) (k : N) (i : nat) (block : N) (cur : bytes)
     : option (res (list (option value) * bytes)) :=
     match g with
     | [] => Some (Ok ([], cur))
     | fd :: g' =>
-        let set := N.testbit block k in
-        let continue (o : option value) (cur' : bytes) :=
-          match dec_items g' (k + 1) (S i) block cur' with
-          | Some (Ok (vs, cur'')) => Some (Ok (o :: vs, cur''))
-          | Some _ => Some Reject
-          | None => None
-          end in
-        if bitf i then continue (if set then Some (VStruct []) else None) cur
-        else if empt (f_ty fd) then
-          (* field.IsTL2Omitted() || field.t.IsTrueType(): skipped, no presence bit is recorded *)
-          let o := if masked fd then None else Some (VStruct []) in
-          if set then match skip_sized cur with Ok cur' => continue o cur' | _ => Some Reject end
-          else continue o cur
-        else if set then
-          match rec (f_ty fd) cur with
-          | Some (Ok (v, cur')) => continue (Some v) cur'
-          | Some _ => Some Reject
-          | None => None
-          end
-        else if masked fd then continue None cur
-        else match dfl (f_ty fd) with Some d => continue (Some d) cur | None => Some Reject end
+        match dec_item fd i (N.testbit block k) cur with
+        | Some (Ok (o, cur')) =>
+            match dec_items g' (k + 1) (S i) block cur' with
+            | Some (Ok (vs, cur'')) => Some (Ok (o :: vs, cur''))
+            | Some _ => Some Reject
+            | None => None
+            end
+        | Some _ => Some Reject
+        | None => None
+        end
     end.
 
   (** the blocks after the first one: "start the next block" reads a byte when one is left *)
@@ -358,6 +367,23 @@ Definition dec_body (rec : nat -> bytes -> d2) (dfl : nat -> option value) (empt
           end
       | _ => Some Reject
       end
+  end.
+
+(** an object (struct or union) on the wire: size, then the body; size 0 = Reset() *)
+Definition dec_obj (rec : nat -> bytes -> d2) (dfl : nat -> option value) (empt : nat -> bool)
+           (get : option N -> option (N * list field * (nat -> bool)))
+           (dv : option value) (mk : N -> list (option value) -> value) (b : bytes) : d2 :=
+  match size2_r b with
+  | Ok (sz, r1) =>
+      if sz =? 0 then match dv with Some d => Some (Ok (d, r1)) | None => Some Reject end
+      else if lenN r1 <? sz then Some Reject
+      else
+        match dec_body rec dfl empt get (firstn (N.to_nat sz) r1) with
+        | Some (Ok (idx, vs)) => Some (Ok (mk idx vs, skipn (N.to_nat sz) r1))
+        | Some _ => Some Reject
+        | None => None
+        end
+  | _ => Some Reject
   end.
 
 Section DecElems2.
@@ -417,33 +443,11 @@ Fixpoint dec2 (fuel : nat) (s : schema) (x : tl2x) (t : nat) (b : bytes) : d2 :=
             | _ => Some Reject
             end
           else
-            match size2_r b with
-            | Ok (sz, r1) =>
-                if sz =? 0 then match dflt s t with Some d => Some (Ok (d, r1)) | None => Some Reject end
-                else if lenN r1 <? sz then Some Reject
-                else
-                  match dec_body (dec2 f s x) (dflt s) (is_empty_struct s) (own_fields x t fds)
-                                 (firstn (N.to_nat sz) r1) with
-                  | Some (Ok (_, vs)) => Some (Ok (VStruct vs, skipn (N.to_nat sz) r1))
-                  | Some _ => Some Reject
-                  | None => None
-                  end
-            | _ => Some Reject
-            end
+            dec_obj (dec2 f s x) (dflt s) (is_empty_struct s) (own_fields x t fds) (dflt s t)
+                    (fun _ vs => VStruct vs) b
       | Some (TUnion vars) =>
-          match size2_r b with
-          | Ok (sz, r1) =>
-              if sz =? 0 then match dflt s t with Some d => Some (Ok (d, r1)) | None => Some Reject end
-              else if lenN r1 <? sz then Some Reject
-              else
-                match dec_body (dec2 f s x) (dflt s) (is_empty_struct s) (variant_fields s x vars)
-                               (firstn (N.to_nat sz) r1) with
-                | Some (Ok (idx, vs)) => Some (Ok (VUnion (N.to_nat idx) vs, skipn (N.to_nat sz) r1))
-                | Some _ => Some Reject
-                | None => None
-                end
-          | _ => Some Reject
-          end
+          dec_obj (dec2 f s x) (dflt s) (is_empty_struct s) (variant_fields s x vars) (dflt s t)
+                  (fun idx vs => VUnion (N.to_nat idx) vs) b
       | Some (TArray k ef) =>
           match size2_r b with
           | Ok (sz, r1) =>
@@ -585,7 +589,14 @@ Definition tydef_ok2 (s : schema) (x : tl2x) (t : nat) (d : tydef) : bool :=
   | TUnion vars =>
       negb (match vars with [] => true | _ => false end) && variants_ok s x 0 vars
   | TArray _ _ => true
-  | TDict _ _ => true
+  | TDict kp ef =>
+      (* the entry is a plain struct whose first field is the key primitive itself *)
+      match nth_error s (f_ty ef) with
+      | Some (TStruct _ (kf :: _)) =>
+          negb (x_alias x (f_ty ef)) && negb (masked kf) &&
+          match nth_error s (f_ty kf) with Some (TPrim p) => key_prim_ok p | _ => false end
+      | _ => false
+      end
   end.
 
 Fixpoint tydefs_ok2 (s : schema) (x : tl2x) (t : nat) (l : list tydef) : bool :=
